@@ -40,6 +40,12 @@ records which eth key made it (`by_`, 0 = garbage), the tuple it was made for an
 (`Wire`) in which it was submitted — and is stored: the code stores the submitted bytes verbatim,
 so the check that admits a signature must be a check of exactly those bytes.
 
+Conventions that make inputs of the real code explicit: eth account 0 is nobody's (`by_ = 0` = random
+bytes, never verifies); message ids come from the model's own counter (`nextId`); batch nonces are an
+input of `putBatch` checked for freshness against `lastNonce` (the real nonce is an auto-increment);
+`put` is the keeper-level `PutMessageInQueue` (caller-chosen assignee), `enqueue` the composition with
+the relayer pick that every producer in x/evm uses; only fee-paying actions have a sender (`senderOf`).
+
 Accounts carry the chain they were registered for (`chain = 0` is the chain the queue / batch
 belongs to, any other number a sibling chain of the same chain type); a validator may hold
 different keys on different chains, and only the account registered for the target chain counts.
@@ -392,6 +398,8 @@ structure State where
   /-- queue in store order (ascending id) -/
   queue : List Item := []
   batches : List Batch := []
+  /-- highest batch nonce handed out so far (`KeyLastOutgoingBatchID`) -/
+  lastNonce : Nat := 0
 deriving Repr
 
 def getItem (q : List Item) (id : Nat) : Option Item := q.find? (fun it => it.id == id)
@@ -415,11 +423,23 @@ def register (s : State) (val : Nat) (accts : List Account) : State × Bool :=
 
 /-! ### enqueue -/
 
-/-- `Queue.Put` without `MsgIDToReplace` -/
+/-- only the fee-paying actions (SubmitLogicCall, UploadUserSmartContract) have a `SenderAddress`
+    field at all; for UpdateValset / CompassHandover the sender is empty (0) whatever the caller says -/
+def senderOf (kind : Kind) (sender : Nat) : Nat := if kind.feePayer then sender else 0
+
+/-- the message `Queue.Put` stores under a fresh id -/
+def newItem (id : Nat) (kind : Kind) (content sender assignee remote : Nat) (reqEst : Bool) : Item :=
+  { id := id, kind := kind, content := content, sender := senderOf kind sender,
+    assignee := assignee, remote := remote, reqEst := reqEst }
+
+/-- `Queue.Put` without `MsgIDToReplace`.  This is the keeper-level entry point: assignee and relayer
+    address are whatever the caller passes.  Every producer of a turnstone message in x/evm
+    (`AddSmartContractExecutionToConsensus`, `AddUploadUserSmartContractToConsensus`,
+    `scheduleCompassHandover`, `PublishValsetToChain`, …) calls `PickValidatorForMessage` first and
+    passes its result — that composition is `enqueue`. -/
 def put (s : State) (kind : Kind) (content sender assignee remote : Nat) (reqEst : Bool) : State × Nat :=
   ({ s with nextId := s.nextId + 1,
-            queue := s.queue ++ [{ id := s.nextId + 1, kind := kind, content := content, sender := sender,
-                                   assignee := assignee, remote := remote, reqEst := reqEst }] },
+            queue := s.queue ++ [newItem (s.nextId + 1) kind content sender assignee remote reqEst] },
    s.nextId + 1)
 
 /-- `AddSmartContractExecutionToConsensus` / `AddUploadUserSmartContractToConsensus`: pick, then put
@@ -451,13 +471,15 @@ def dupCheck : List Sig → Nat → Nat → Option SignRes
 
 /-- the queue's `VerifySignature`: only the canonical 20-byte spelling of the key bytes is accepted
     (`key % 4 == 0`), `crypto.Ecrecover` runs over the submitted bytes as they are (`w.strict`) and the
-    recovered account equals `BytesToAddress(key)` -/
+    recovered account equals `BytesToAddress(key)`.  `by_ = 0` stands for "bytes that are a signature by
+    no key anybody holds" (random bytes): the account they recover to is nobody's, so it never equals
+    a registered one — account 0 is reserved for this. -/
 def verifies (w : Wire) (key by_ : Nat) (for_ cur : SignBytes) : Bool :=
-  w.strict && key % 4 == 0 && by_ == canon key && for_ == cur
+  w.strict && key % 4 == 0 && by_ != 0 && by_ == canon key && for_ == cur
 
 /-- `VerifySignature` before 23185e9f: any spelling of the key bytes verified -/
 def verifiesPreFix (w : Wire) (key by_ : Nat) (for_ cur : SignBytes) : Bool :=
-  w.strict && by_ == canon key && for_ == cur
+  w.strict && by_ != 0 && by_ == canon key && for_ == cur
 
 def addSig (it : Item) (sg : Sig) : Item := { it with sigs := it.sigs ++ [sg] }
 
@@ -554,6 +576,15 @@ def remove (s : State) (id : Nat) : State × Bool :=
   | none => (s, false)
   | some _ => ({ s with queue := s.queue.filter (fun it => it.id != id) }, true)
 
+/-- `Queue.ReassignValidator` (reached only from `Keeper.ReassignOrphanedMessages`, which has NO
+    caller anywhere in /repo — no module, ABCI hook or message server uses it).  It rewrites assignee
+    and relayer address and keeps `SignData`.  It is deliberately *not* an `Op`: it is unreachable
+    code.  Props/C06.lean shows what it would do to the property if it were ever wired in. -/
+def reassignDead (s : State) (id assignee remote : Nat) : State :=
+  match getItem s.queue id with
+  | none => s
+  | some it => { s with queue := setItem s.queue { it with assignee := assignee, remote := remote } }
+
 /-! ### relaying (`GetMessagesForRelaying`) -/
 
 /-- id of the first UpdateValset message in the queue (`GetPendingValsetUpdates()[0]`) -/
@@ -607,8 +638,15 @@ def getBatch (bs : List Batch) (n : Nat) : Option Batch := bs.find? (fun b => b.
 
 def setBatch (bs : List Batch) (b' : Batch) : List Batch := bs.map (fun b => if b.nonce == b'.nonce then b' else b)
 
+/-- `BuildOutgoingTXBatch`: the nonce comes from the auto-increment counter `KeyLastOutgoingBatchID`
+    (`StoreBatch` is never called with a nonce that was handed out before, except by
+    `UpdateBatchGasEstimate`, which is `updateBatchGas`).  The model takes the nonce as an input and
+    expresses the counter as a freshness test: a nonce that is not above every earlier one creates
+    nothing. -/
 def putBatch (s : State) (nonce content remote : Nat) : State :=
-  { s with batches := s.batches ++ [{ nonce := nonce, content := content, remote := remote }] }
+  if nonce ≤ s.lastNonce then s
+  else { s with batches := s.batches ++ [{ nonce := nonce, content := content, remote := remote }],
+                lastNonce := nonce }
 
 /-- `GetEthAddressByValidator`: first registered account on the chain -/
 def ethAddrOf (regs : List (Nat × List Account)) (val : Nat) : Option Nat :=
@@ -631,7 +669,7 @@ def confirmWith (keyOnce : Bool) (s : State) (nonce val addr by_ : Nat) (for_ : 
     | none => (s, .noAddr)
     | some a =>
       if canon a != canon addr then (s, .mismatch)
-      else if !(w.bridge && by_ == canon a && for_ == bbytes b) then (s, .badSig)
+      else if !(w.bridge && by_ != 0 && by_ == canon a && for_ == bbytes b) then (s, .badSig)
       else if b.confirms.any (fun c => c.val == val) then (s, .dup)
       else if keyOnce && b.confirms.any (fun c => canon c.addr == canon addr) then (s, .dupKey)
       else ({ s with batches := setBatch s.batches (addConfirm b ⟨val, addr, by_, for_, w⟩) }, .ok)
